@@ -3,7 +3,16 @@ import os
 
 from vf import env  # noqa
 
-SHARE_STATES = ["good", "good", "good", "missing", "destroyed", "light", "truncated-header"]
+SHARE_STATES = ["good", "good", "good", "missing", "destroyed", "light", "truncated-header", "field"]
+# "field" is replaced in build() by "field:<name>=<symbolic value>": one length word or offset-table entry of the share
+# set to a boundary value (zero, one off, equal to a neighbouring offset, end of share, maximum)
+FIELD_NAMES = ["ueb-len", "ueb-len", "ueb-len", "data", "plaintext_hash_tree", "crypttext_hash_tree", "block_hashes", "share_hashes",
+               "uri_extension", "block_size", "share_data_size"]
+FIELD_VALUES = ["0", "0", "0", "1", "cur-1", "cur+1", "next", "prev", "end", "end+1", "max"]
+
+
+def _field_state(rng):
+    return "field:%s=%s" % (rng.choice(FIELD_NAMES), rng.choice(FIELD_VALUES))
 SERVER_FAULTS = ["none", "none", "none", "raise-all", "raise-nth", "disconnect-nth", "dead", "delay", "delay-nth",
                  "hang-nth"]
 
@@ -11,8 +20,18 @@ SERVER_FAULTS = ["none", "none", "none", "raise-all", "raise-nth", "disconnect-n
 def build_directed(rng):
     """Directed families (placements are given as RANKS in the permuted server order of the
     file's storage index; materialize() maps ranks to servers)."""
-    fam = rng.choice(["late-majority", "dup-failover"])
-    if fam == "late-majority":
+    fam = rng.choice(["late-majority", "dup-failover", "field-edits"])
+    if fam == "field-edits":
+        # the first servers in permuted order (the ones a reader asks first) hold shares with one header field set to
+        # a boundary value; 0..k intact shares sit behind them
+        k = rng.randint(1, 3)
+        n = rng.randint(k, k + 3)
+        ngood = rng.choice([0, 0, k - 1, k, k])
+        nservers = n + rng.randint(0, 2)
+        same = _field_state(rng) if rng.random() < .6 else None
+        placements = [(sh, sh, "good" if sh >= n - ngood else (same or _field_state(rng))) for sh in range(n)]
+        faults = {r: {"kind": "none"} for r in range(nservers)}
+    elif fam == "late-majority":
         # more than ten servers; the first ten in permuted order hold nothing and answer the share query
         # late (but within the overdue time); the only shares sit on the servers behind them
         nservers = rng.randint(11, 14)
@@ -49,7 +68,7 @@ def build_directed(rng):
 
 def build(rng, allow_hang=True, maxn=6):
     """Generate a case description (pure data)."""
-    if rng.random() < .12:
+    if rng.random() < .18:
         return build_directed(rng)
     n = rng.choice([1, 2, 3, 3, 4, 5, maxn])
     k = rng.randint(1, n)
@@ -73,6 +92,9 @@ def build(rng, allow_hang=True, maxn=6):
             srvs = [rng.randrange(nservers)]
         for s in srvs:
             placements.append([s, sh, rng.choice(SHARE_STATES)])
+    for pl in placements:
+        if pl[2] == "field":
+            pl[2] = _field_state(rng)
     mode = rng.random()
     if mode < .35:
         # make exactly k shares good, everything else bad in some way
@@ -81,7 +103,7 @@ def build(rng, allow_hang=True, maxn=6):
             if pl[1] in goodnums:
                 pl[2] = "good"
             elif pl[2] == "good":
-                pl[2] = rng.choice(["missing", "destroyed", "light", "truncated-header"])
+                pl[2] = rng.choice(["missing", "destroyed", "light", "truncated-header", _field_state(rng)])
     elif mode < .55:
         # fewer than k usable
         goodnums = set(rng.sample(range(n), rng.randint(0, k - 1))) if k > 0 else set()
@@ -134,6 +156,30 @@ def classify(case):
     return "open", {"good": sorted(good), "maybe": sorted(maybe)}
 
 
+def _edit_field(sf, name, sym):
+    """Set one length word / offset-table entry / size field of an immutable share to a boundary value."""
+    import struct
+    fs = sf.fieldsize
+    fmt = ">L" if fs == 4 else ">Q"
+    lim = (1 << (8 * fs)) - 1
+    order = ["data", "plaintext_hash_tree", "crypttext_hash_tree", "block_hashes", "share_hashes", "uri_extension"]
+    if name == "ueb-len":
+        pos = sf.offsets["uri_extension"]
+        nxt = prv = None
+    elif name in ("block_size", "share_data_size"):
+        pos = 4 + (0 if name == "block_size" else fs)
+        nxt = prv = None
+    else:
+        pos = sf.offpos[name]
+        i = order.index(name)
+        nxt = sf.offsets[order[i + 1]] if i + 1 < len(order) else sf.data_len
+        prv = sf.offsets[order[i - 1]] if i > 0 else 0
+    (cur,) = struct.unpack(fmt, sf.data()[pos:pos + fs])
+    val = {"0": 0, "1": 1, "cur-1": cur - 1, "cur+1": cur + 1, "next": nxt if nxt is not None else cur + 2,
+           "prev": prv if prv is not None else cur // 2, "end": sf.data_len, "end+1": sf.data_len + 1, "max": lim}[sym]
+    sf.write_at(pos, struct.pack(fmt, max(0, min(lim, val))))
+
+
 def has_infinite_hang(case):
     return any(f["kind"] == "hang-nth" for f in case["faults"].values())
 
@@ -177,6 +223,8 @@ def materialize(case, rng, seed, profile):
                 sf.flip(rng.randrange(sf.data_len), 1 << rng.randrange(8))
         elif st == "truncated-header":
             sf.truncate_data(rng.choice([0, 3, 4, 0x23, 0x24, 0x30]))
+        elif st.startswith("field:"):
+            _edit_field(sf, *st[6:].split("="))
         sf.save()
     for s, spec in case["faults"].items():
         vs = g.servers[s]
